@@ -85,7 +85,7 @@ def gen_world(rng, i, tier):
     w["multiline"] = ml
     w["comment_first"] = rng.chance(0.5)        # order of the two options on the command line
     w["opt_spelling"] = rng.pick(["long=", "long=", "long", "short", "short-attached"])     # --comment=X | --comment X | -c X | -cX
-    base = rng.pick(["app", "my.app", "x"])
+    base = rng.pick(["app", "my.app", "x", "sub/app", "systemd/journald"])      # a name may have a directory part (systemd/journald.conf)
     w["base"] = base
     # the root the tool is pointed at may have any legal directory name
     w["rootsub"] = rng.pick(["", "", "", "/stage:2", "/img;rw", "/with space", "/a=b#c"])
